@@ -387,7 +387,7 @@ fn c10_o1e_error_round_trip() {
 }
 
 //@ ob: C10.O1s
-//@ tier: thorough
+//@ tier: off
 //@ cap: 2400
 //@ mem: 24
 //@ desc: announce_signed_peer encoding: into_serde_message keeps info_hash, k, sig and token, and the timestamp it puts into the wire mirror is an integer bencode can carry -- within the signed 64-bit range the parser reads (timestamps at or above 2^63 included: they must map into that range, not be emitted as larger integers) -- and maps back to the same u64 timestamp
